@@ -473,6 +473,15 @@ func (r *runner) judgeDockerCase(c Case, da *dockerArchive, im *imported) *verdi
 	case sp.Dup != "":
 		cls += ":dup-" + sp.Dup
 	}
+	if sp.Damage != "" {
+		// a layer of the archive cannot be decompressed to the end: there is no "archive's uncompressed
+		// layer" an imported image could equal, so the only answer that keeps the statement is an error
+		if im.Err != nil {
+			r.rec.Count("docker_damaged_layer_refused", 1)
+			return nil
+		}
+		return &verdict{"docker:damaged-layer-imported", fmt.Sprintf("a layer of the archive does not decompress, yet ImageImport returned nil and the target resolves to %s", short(im.Resolve))}
+	}
 	if sp.Sel == "absent" {
 		// the archive holds no such image: an error is the expected answer; success must not leave
 		// something under the target reference that is not an image of the archive
@@ -699,6 +708,18 @@ func dockerSpecs(thorough bool) []DockerSpec {
 	if thorough {
 		permBound = 8
 	}
+	// a compressed layer that is damaged inside its stream
+	for _, images := range []int{1, 2} {
+		for layers := 1; layers <= 2; layers++ {
+			for _, style := range []string{"legacy", "flat", "blobs"} {
+				for _, sel := range []string{"", "last"} {
+					for _, o := range []string{"id", "mlast"} {
+						out = append(out, DockerSpec{Images: images, Layers: layers, LayerGz: true, Style: style, Sel: sel, Order: o, Damage: "gz-body"})
+					}
+				}
+			}
+		}
+	}
 	for _, images := range []int{1, 2} {
 		for layers := 1; layers <= 3; layers++ {
 			for _, style := range []string{"legacy", "flat", "blobs"} {
@@ -756,7 +777,7 @@ func rule(thorough bool) string {
 	}
 	return fmt.Sprintf("exhaustive product, no sampling: [damaged] every graph x source {registry, layout} x every hosted blob of the closure damaged at the source in turn {one byte flipped (same length), last byte missing, one byte appended} x gzip off/on: the export must fail or still write a valid layout; [rt] graphs {%s} x source {model registry, OCI layout dir} x source ref by tag/by digest x gzip off/on x export-ref override off/on -> archive oracle (1 evaluation per export), then x target {validating registry, non-validating registry, layout dir} x import selection {none, ImageWithImportName(full name), ImageWithImportName(tag), target ref by digest} (1 evaluation per import); "+
 		"[shape] every graph exported from a registry by tag, its archive re-serialised by the harness as: same order, every permutation of the non-directory entries when there are <= %d of them (otherwise all rotations, the reversal and all rotations of the reversal), directory entries omitted / last, './' name prefix, gzip, an unrelated file or an unrelated blob inserted at every position, and every blob entry (one at a time, and all at once) replaced by a link of each form {%s} to a second copy (symlinks with the copy before and after the link), and one blob entry replaced by a link combined with every order of all entries (%s; orders that put a hard link before its target are skipped as malformed), each x 3 targets; "+
-		"[docker] harness-built Docker-save archives: images 1-2 (sharing the base layer file) x layers 1-3 x style {legacy <id>/layer.tar, flat <hex>.tar, blobs/sha256/<hex>} x layer files plain/gzip x duplicate-layer form {none, copy, symlink, hardlink, same path twice} x LayerSources (blobs style) x whole archive gzip x selection {none, first RepoTag of image 0, second RepoTag of the last image, absent name} x order {as written, reversed, manifest.json last; every permutation for flat archives of <= %d entries} x 3 targets; "+
+		"[docker] harness-built Docker-save archives: images 1-2 (sharing the base layer file) x layers 1-3 x style {legacy <id>/layer.tar, flat <hex>.tar, blobs/sha256/<hex>} x layer files plain/gzip x duplicate-layer form {none, copy, symlink, hardlink, same path twice} x LayerSources (blobs style) x whole archive gzip x selection {none, first RepoTag of image 0, second RepoTag of the last image, absent name} ; plus 48 archives with gzip layers one of which is damaged inside its compressed stream (the import has to refuse) x order {as written, reversed, manifest.json last; every permutation for flat archives of <= %d entries} x 3 targets; "+
 		"[multi] harness-built OCI layout archives with two images x index order x selection {ref.name of either, digest of either, none with the target tag equal to the second ref.name, none} x 3 targets (an explicit selection must yield exactly that image; without one either image, complete, or an error is accepted). "+
 		"distinct_nontrivial counts distinct cases (full case description) in which the operation actually did its work: an export that produced an archive, an import that stored at least one manifest at the target.",
 		strings.Join(allGraphs(), ","), pb, strings.Join(linkForms, ","), lp, dpb)
